@@ -1641,6 +1641,12 @@ func (v *Verifier) globalValue(g *ssa.Global) *Term {
 	return v.c.Const(name, so)
 }
 
+// floatLit: floating-point numbers are an uninterpreted sort; a literal is a named constant, so that two occurrences of the
+// same literal (in the code or, as floatlit("..."), in a contract) denote the same value. Nothing else is known about it.
+func (v *Verifier) floatLit(exact string) *Term {
+	return v.c.Const("floatlit_"+sanitize(exact), v.c.Sorts.Unint("Float"))
+}
+
 func (v *Verifier) constTerm(k *ssa.Const) *Term {
 	so := v.tm.SortOf(k.Type())
 	if k.Value == nil {
@@ -1669,7 +1675,10 @@ func (v *Verifier) constTerm(k *ssa.Const) *Term {
 				return v.c.Int(i)
 			}
 		}
-		return v.c.Fresh("floatconst", so)
+		return v.floatLit(k.Value.ExactString())
+	}
+	if so.Name == "Float" && (k.Value.Kind() == constant.Int || k.Value.Kind() == constant.Float) {
+		return v.floatLit(k.Value.ExactString())
 	}
 	unsupported("constant %s of type %s", k, k.Type())
 	return nil
